@@ -157,6 +157,14 @@ def decide(ck, arts, k):
         if a["perr"].startswith("panic"):
             ck.violation("%s %r: emerge panics: %s" % (a["id"], a["text"].replace("\n", " "), a["perr"][:120]),
                          {"property": "C06", "kind": "panic", "id": a["id"], "text": a["text"]})
+    # the textbook and operator grammars are hand-written and well-formed: spec.Parse rejecting one of them (a precedence
+    # level "appearing twice", a handle not found) is a verdict, not an infrastructure failure
+    hand = [d for d in perr if arts[d["id"]]["fam"] in ("textbook", "op")]
+    for d in hand:
+        a = arts[d["id"]]
+        ck.violation("well-formed grammar with directives rejected before the table is built: %s %r: %s" % (a["id"], a["text"].replace("\n", " "), a["perr"][:160].replace("\n", " ")),
+                     {"property": "C06", "kind": "rejected", "id": a["id"], "text": a["text"]})
+    perr = [d for d in perr if d not in hand]
     if perr:
         a = arts[perr[0]["id"]]
         raise vp.Infra("%d grammar texts were rejected by spec.Parse, e.g. %r: %s" % (len(perr), a["text"], a["perr"][:200]))
